@@ -2,6 +2,7 @@ package mvp8_0
 
 import (
 	"fmt"
+	"sync"
 
 	co "github.com/teivah/majorana/common/coroutine"
 	"github.com/teivah/majorana/common/latency"
@@ -47,6 +48,8 @@ type cacheController struct {
 	msi         *msi
 	l1RLockSems map[comp.AlignedAddress]*comp.Sem
 	l1LockSems  map[comp.AlignedAddress]*comp.Sem
+	// L3 lock held by the read in flight, if any
+	l3Lock *sync.Mutex
 
 	// Transient
 	post func()
@@ -255,10 +258,12 @@ func (cc *cacheController) coRead(r ccReadReq) ccReadResp {
 								if !mu.TryLock() {
 									return ccReadResp{}
 								}
+								cc.l3Lock = mu
 
 								return cc.read.ExecuteWithCheckpointAfter(r, latency.L3Access, func(r ccReadReq) ccReadResp {
 									shouldEvict := cc.pushLineToL3(l3Addr, l3Data)
 									mu.Unlock()
+									cc.l3Lock = nil
 									if shouldEvict != nil {
 										pending := cc.msi.evictL3ExtraCacheLine(cc.id, shouldEvict.Boundary[0])
 										cc.read.Checkpoint(func(r ccReadReq) ccReadResp {
@@ -483,6 +488,11 @@ func (cc *cacheController) writeToL3(l1Addr comp.AlignedAddress, data []int8) {
 func (cc *cacheController) flush() {
 	cc.read.Reset()
 	cc.write.Reset()
+	if cc.l3Lock != nil {
+		// The read that was holding it is gone
+		cc.l3Lock.Unlock()
+		cc.l3Lock = nil
+	}
 	for k, sem := range cc.l1RLockSems {
 		sem.RUnlock()
 		delete(cc.l1RLockSems, k)
